@@ -75,8 +75,9 @@ func entryOptions(universe []string, thorough bool) []imgkit.Entry {
 		out = append(out, imgkit.Whiteout(p))
 		out = append(out, imgkit.Opaque(p))
 	}
-	// two symlinks: absolute to a (possibly missing) file, relative to a directory
-	out = append(out, imgkit.Sym("a/d", "/e"), imgkit.Sym("e", "a/b"))
+	// symlinks: absolute to a (possibly missing) file, relative to a directory, and two that can take
+	// the place of a directory with content below it (a non-directory hides what was beneath)
+	out = append(out, imgkit.Sym("a/d", "/e"), imgkit.Sym("e", "a/b"), imgkit.Sym("a/b", "/e"), imgkit.Sym("a", "e"))
 	return out
 }
 
@@ -993,7 +994,7 @@ func main() {
 	// A whiteout or an opaque marker on "a" must not touch "ab" or "a.b"; any implementation that
 	// compares paths as strings rather than component-wise differs from the overlay model here.
 	{
-		pu := []string{"a", "a/x", "ab", "ab/x", "a.b", "a.wh.b"} // "a.wh.b": the whiteout marker prefix inside a name
+		pu := []string{"a", "a/x", "ab", "ab/x", "a.b", "a.wh.b", "hw", ".w"} // "a.wh.b": the marker prefix inside a name; "hw", ".w": names made of the marker's own characters
 		var po []imgkit.Entry
 		for _, p := range pu {
 			po = append(po, imgkit.File(p, "1"), imgkit.Entry{Name: p, Kind: "dir", Mode: 0o1750}, imgkit.Whiteout(p), imgkit.Opaque(p))
@@ -1061,5 +1062,5 @@ func main() {
 	}
 	os.RemoveAll(base)
 	r.Assume("imgkit.Model.Apply (~60 lines) is the OCI image-spec change-set application: whiteouts act on lower layers only, then the layer's entries are added")
-	r.Finish(fmt.Sprintf("universe %v; entry kinds: file(2 contents/modes), dir, whiteout, opaque marker per path + 2 symlinks (%d options); layers = all well-formed sets of <=%d entries (%d); all 1- and 2-layer images, every entry order per layer (plain names), canonical order with './' and '/' name styles; for images where an upper layer touches a lower one: 5 history arrangements incl. empty layers at every position and a short history, missing config, requirer none/each path; deep-pruning family (file 4 levels down x requirers); prefix-sibling family (names a, a/x, ab, ab/x, a.b, a.wh.b; lower layer <=2 (thorough 3) entries x upper layer 1 (thorough <=2) entry, + a third layer on top); squashed on-disk unpack AND a FromTarball load of the saved tarball for all pairs of single-entry layers; thorough adds all 3-layer images (<=%d,<=%d,1). Each view: Stat/Open+Read (plus: a second handle opened while the first is part-way through, ReadAt at every offset, Seek from the end) on every universe path + 2 absent paths, ReadDir of every directory, WalkDir. non-trivial = an upper-layer entry overlaps a lower-layer entry", universe, len(opts), maxEntries, len(sets), maxEntries, maxEntries), complete)
+	r.Finish(fmt.Sprintf("universe %v; entry kinds: file(2 contents/modes), dir, whiteout, opaque marker per path + 4 symlinks (%d options); layers = all well-formed sets of <=%d entries (%d); all 1- and 2-layer images, every entry order per layer (plain names), canonical order with './' and '/' name styles; for images where an upper layer touches a lower one: 5 history arrangements incl. empty layers at every position and a short history, missing config, requirer none/each path; deep-pruning family (file 4 levels down x requirers); prefix-sibling family (names a, a/x, ab, ab/x, a.b, a.wh.b, hw, .w; lower layer <=2 (thorough 3) entries x upper layer 1 (thorough <=2) entry, + a third layer on top); squashed on-disk unpack AND a FromTarball load of the saved tarball for all pairs of single-entry layers; thorough adds all 3-layer images (<=%d,<=%d,1). Each view: Stat/Open+Read (plus: a second handle opened while the first is part-way through, ReadAt at every offset, Seek from the end) on every universe path + 2 absent paths, ReadDir of every directory, WalkDir. non-trivial = an upper-layer entry overlaps a lower-layer entry", universe, len(opts), maxEntries, len(sets), maxEntries, maxEntries), complete)
 }
